@@ -48,6 +48,9 @@ type Contract struct {
 	NoPanic    bool
 	Cuts       []*Cut
 	JoinSwitch bool
+	IsDef      bool // contract-level definition (macro): def name(params) := expr
+	DefBody    ast.Expr
+	Assumes    []*Cut // trusted assumptions anchored at statements
 	Timeout    int
 	Solvers    []string
 }
@@ -60,6 +63,7 @@ type Cut struct {
 	Reveal map[string]bool
 	Clause *Clause
 	Ord    int
+	After  bool // assumption applies after the anchored statement
 }
 
 type LemmaParam struct {
@@ -67,7 +71,7 @@ type LemmaParam struct {
 	Type ast.Expr
 }
 
-var clauseKeywords = []string{"requires", "ensures", "modifies", "loop", "reveal", "inline", "trusted", "pure", "maynil", "mayalias", "mode", "split", "timeout", "solvers", "cut", "joinswitch"}
+var clauseKeywords = []string{"requires", "ensures", "modifies", "loop", "reveal", "inline", "trusted", "pure", "maynil", "mayalias", "mode", "split", "timeout", "solvers", "cut", "joinswitch", "assume"}
 
 // parseContractComments extracts contract blocks from a file's comments.
 func parseContractComments(fset *token.FileSet, f *ast.File, pkgPath string) ([]*Contract, error) {
@@ -108,6 +112,25 @@ func parseContractComments(fset *token.FileSet, f *ast.File, pkgPath string) ([]
 		t := l.text
 		src := fmt.Sprintf("%s:%d", l.pos.Filename, l.pos.Line)
 		if t == "" {
+			continue
+		}
+		if strings.HasPrefix(t, "def ") {
+			if err := flush(); err != nil {
+				return nil, err
+			}
+			// def name(params) := expr   (may continue on following lines)
+			cur = &Contract{PkgPath: pkgPath, LoopInv: map[int][]*Clause{}, LoopMod: map[int][]ast.Expr{}, Reveal: map[string]bool{}, MayNil: map[string]bool{}, Src: src, IsDef: true}
+			body := strings.TrimSpace(t[4:])
+			i := strings.Index(body, ":=")
+			if i < 0 {
+				return nil, fmt.Errorf("%s: def: missing ':='", src)
+			}
+			if err := cur.parseLemmaHead(strings.TrimSpace(body[:i])); err != nil {
+				return nil, fmt.Errorf("%s: %v", src, err)
+			}
+			cur.Key = strings.TrimPrefix(cur.Key, "lemma.")
+			out = append(out, cur)
+			pend = &pending{kw: "defbody", text: strings.TrimSpace(body[i+2:]), src: src}
 			continue
 		}
 		if strings.HasPrefix(t, "func ") || strings.HasPrefix(t, "lemma ") {
@@ -275,6 +298,33 @@ func (c *Contract) addClause(kw, text, src string) error {
 		}
 	case "joinswitch":
 		c.JoinSwitch = true
+	case "defbody":
+		e, err := parseContractExpr(text)
+		if err != nil {
+			return fmt.Errorf("%s: def: %v", src, err)
+		}
+		c.DefBody = e
+	case "assume":
+		// assume "<stmt prefix>": E   -- a trusted assumption, listed in the evidence
+		t := strings.TrimSpace(text)
+		if !strings.HasPrefix(t, "\"") {
+			return fmt.Errorf("%s: assume: want quoted statement anchor", src)
+		}
+		end := strings.Index(t[1:], "\"")
+		if end < 0 {
+			return fmt.Errorf("%s: assume: unterminated anchor", src)
+		}
+		anchor := t[1 : 1+end]
+		rest := strings.TrimSpace(t[end+2:])
+		if !strings.HasPrefix(rest, ":") {
+			return fmt.Errorf("%s: assume: missing ':'", src)
+		}
+		text = strings.TrimSpace(rest[1:])
+		cl, err := mk("assume", len(c.Assumes))
+		if err != nil {
+			return err
+		}
+		c.Assumes = append(c.Assumes, &Cut{Anchor: anchor, Reveal: map[string]bool{}, Clause: cl, Ord: len(c.Assumes), After: true})
 	case "cut":
 		// cut "<stmt prefix>" [reveal a, b]: E
 		t := strings.TrimSpace(text)
